@@ -113,6 +113,7 @@ func checkC06(cx *Ctx, r *Report) {
 	}
 	r.NotDec = []string{"that time.Parse with the layout accepts exactly the supported lexical forms", "XML well-formedness as judged by encoding/xml"}
 	r.Assume = []string{"chain semantics (C20, re-checked)", "getter closures passed to the checker are pure"}
+	cx.checkDecodesWholeMessage(r, "R-STRICT", "xml.DecodeAuthNRequest")
 	if !cx.requireC20(r) {
 		return
 	}
@@ -405,7 +406,14 @@ func (cx *Ctx) checkErrPropagation(r *Report, rule, key string, fn *ssa.Function
 			continue
 		}
 		if fx.isReturned(e) {
-			// returned: fine when every return of it is in the error position
+			// returned: fine when every return of it is in the error position - unless the error is also tested and
+			// the failing branch goes on to something that counts as success (a retry loop around a storage call)
+			if nn, tested := fx.errBranches(e); tested {
+				if bad := cx.successAfterFailure(nn, call); bad != "" {
+					r.Fail(rule, ckey, w.InstrPos(call), bad)
+					continue
+				}
+			}
 			r.Ok(rule, ckey, w.InstrPos(call), "error returned to the caller")
 			continue
 		}
@@ -442,11 +450,40 @@ func (cx *Ctx) checkErrPropagation(r *Report, rule, key string, fn *ssa.Function
 				}
 			}
 		}
-		r.Check(bad == "", rule, ckey, w.InstrPos(call), "error tested; the failing branch returns a non-nil error", bad)
+		// nothing that counts as success may be reachable from the failing branch - also not through a back edge
+		// (a retry loop that calls the storage again after it failed)
+		if bad == "" {
+			bad = cx.successAfterFailure(nonNil, call)
+		}
+		r.Check(bad == "", rule, ckey, w.InstrPos(call), "error tested; the failing branch returns a non-nil error and reaches no success effect", bad)
 	}
 	if n == 0 {
 		r.Ok(rule, key, w.FnPos(fn), "no fallible module/storage call")
 	}
+}
+
+// successAfterFailure: from the blocks entered when the error of call was found non-nil, a success effect (persist,
+// user-info lookup, Success constructor, signing, redirect) is reachable in the control-flow graph, back edges included.
+func (cx *Ctx) successAfterFailure(nonNil []*ssa.BasicBlock, call *ssa.Call) string {
+	seen := map[*ssa.BasicBlock]bool{}
+	for _, nb := range nonNil {
+		for _, b := range blocksFrom(nb) {
+			if seen[b] {
+				continue
+			}
+			seen[b] = true
+			for _, in := range b.Instrs {
+				c2, ok := in.(ssa.CallInstruction)
+				if !ok {
+					continue
+				}
+				if se := cx.successEffect(c2); se != "" {
+					return fmt.Sprintf("after %s failed the function can still reach %s at %s (the failure does not end the request: retry / continue)", shortCallee(calleeName(call)), se, cx.W.InstrPos(c2))
+				}
+			}
+		}
+	}
+	return ""
 }
 
 // errDisciplined: calls whose error must be handled: module functions, closures, interface methods of the
